@@ -159,3 +159,9 @@ def obligations(ctx, cfg):
     if cfg['tier'] == 'thorough':
         obs.append(Race(ctx, ['dec', 'inc']))
     return obs
+
+
+def kani_harnesses(cfg):
+    q = cfg['tier'] == 'quick'
+    hs = [{'id': 'K5-notify-contract', 'harness': 'k5_notified_created_before_notify_waiters_sees_it', 'quick': True, 'desc': 'real tokio Notify: a Notified created before notify_waiters() observes it without having been polled; notify_waiters stores no permit (the contract clause Tier 4 relies on)'}, {'id': 'K5-two-waiters', 'harness': 'k5_two_parked_waiters_released_by_one_dec', 'desc': 'real FlowControl + real tokio Notify + the compiled future polled by hand: two parked waiters are both woken by one dec and complete iff capacity was freed (limits 2/2, any deltas <= 2)'}, {'id': 'K4-has-space', 'harness': 'k4_has_available_space', 'quick': True, 'desc': 'has_available_space on the compiled code, all u64'}]
+    return [h for h in hs if not q or h.get('quick')]
